@@ -529,6 +529,21 @@ theorem C19_scenario_vars (h2 : Bool) (scn : String) (s : VarState) (steps : Lis
     subst h
     exact scenarioFatal_false _
 
+/-- The gRPC scenario gun with "prepare" preprocessors that read the earlier response MESSAGES (`request.<call>.postprocessor`:
+repeated fields of any length, strings, anything — chosen by the peer): for every list of calls, every variable state and
+every iterator the shot is exactly the shot of the same calls with the preprocessors resolved into the static
+`GrpcCallKind.prepFails` (a preprocessor that cannot produce its variable — an index into a list the target left
+empty, a missing field of a failed call — is a call that fails before it is made: one sample with code 0, the remaining
+calls skipped), so `C19_grpc_samples` applies to it, and it never panics. -/
+theorem C19_grpc_scenario_vars (scn : String) (s : VarState) (calls : List VCall) :
+    let cap := some Gen.RespGuard.maxRandStringLength
+    shootGrpcScenarioV cap scn s calls = (GunShot.grpcScenario scn (resolveGrpcV cap s calls)).run ∧
+    (shootGrpcScenarioV cap scn s calls).panicked = false := by
+  have heq := shootGrpcScenarioV_eq _ Bridge.C19.maxRandStringLength_ok scn calls s
+  refine ⟨heq, ?_⟩
+  rw [heq, run_panicked_iff]
+  rfl
+
 /-! ## the defects of the tree as found (what the two fixes repair) -/
 
 /-- `substr(5)` on a 3-byte header value: the closure as found slices `in[3:5]` and panics. -/
@@ -692,5 +707,12 @@ example : shootScenarioV (some Gen.RespGuard.maxRandStringLength) false "s" {}
 example : randString (some Gen.RespGuard.maxRandStringLength) (.str "99999999999999999") = .ok false ∧
     randString (some Gen.RespGuard.maxRandStringLength) (.str "12") = .ok true ∧
     randString (some Gen.RespGuard.maxRandStringLength) (.other "1.5" none) = .ok false := by decide
+-- C19_grpc_scenario_vars: the first call returns a message without the repeated field (an empty list), the second call's
+-- preprocessor takes `result[rand]`: two samples, the second with code 0; nothing panics
+example : shootGrpcScenarioV (some Gen.RespGuard.maxRandStringLength) "g" {}
+      [{ name := "c0", cfg := ⟨"t0", .callable, []⟩, reply := ⟨0, fun _ => true⟩, post := some [] },
+       { name := "c1", cfg := ⟨"t1", .callable, []⟩, reply := ⟨0, fun _ => true⟩,
+         pre := [("x", .path [⟨"request", none⟩, ⟨"c0", none⟩, ⟨"postprocessor", none⟩, ⟨"result", some .rand⟩] {})] }]
+    = { reports := [⟨"g.t0", 0, 200, 0⟩, ⟨"g.t1", 0, 0, 0⟩], panicked := false } := by decide
 
 end Pandora.Props.C19
